@@ -187,7 +187,7 @@ func chooseWorld(t *tape.Tape) world {
 		}
 		w.name += "+64KiB-of-kerning"
 		w.subsetOK = false
-	} else if t.Chance(1, 4) {
+	} else if t.Chance(1, 3) {
 		// kerning data of realistic size (3..12 KiB per subtable)
 		build, seed := w.build, t.Raw()
 		w.build = func() *sfnt.Font {
@@ -262,7 +262,7 @@ func run(c *wk.Case) {
 	}
 	// "stampede": many goroutines do the same thing to the same font at the
 	// same time (a server writing one font for many requests)
-	stampede := t.Chance(1, 5)
+	stampede := t.Chance(1, 4)
 	var stampOp op
 	if stampede {
 		n = t.Range(8, 16)
@@ -274,6 +274,14 @@ func run(c *wk.Case) {
 			}
 		}
 		stampOp = heavy[t.Draw(len(heavy))]
+		if t.Chance(1, 2) {
+			// the motivating case: a server writing one font for many requests
+			for _, o := range heavy {
+				if o.name == "Write" {
+					stampOp = o
+				}
+			}
+		}
 	}
 	plans := make([]*taskPlan, n)
 	var desc []string
